@@ -334,7 +334,7 @@ def handleAngle (cd : Codec α) (trunc : α → Int) (ws : List String) : Option
     some (outNums cd [Angle.angleDist trunc tau a b])
   | _ => none
 
-def handlePolyG (cd : Codec α) (ws : List String) : Option String := do
+def handlePolyG (cd : Codec α) (exact : Bool) (ws : List String) : Option String := do
   match ws with
   | "eval" :: rest =>
     let (p, r) ← takeCounted cd rest
@@ -343,7 +343,9 @@ def handlePolyG (cd : Codec α) (ws : List String) : Option String := do
   | "mul" :: rest =>
     let (p, r) ← takeCounted cd rest
     let (q, _) ← takeCounted cd r
-    some (outList cd (Poly.mul p q))
+    -- exact mode: the specification (sum of shifted rows, `poly_eval_mul`); bit mode: the double loop as written
+    -- (`Poly.mulLoop`, proved equal to it over every field by `poly_mul_loop_eq`)
+    some (outList cd (if exact then Poly.mul p q else Poly.mulLoop p q))
   | "scale" :: rest =>
     let (p, r) ← takeCounted cd rest
     let s ← cd.parse (← r.head?)
@@ -358,6 +360,43 @@ def handlePolyG (cd : Codec α) (ws : List String) : Option String := do
     | none => some "panic"
     | some q => some (outList cd q)
   | "divrootid" :: _ => some (outNums cd [((0 : Nat) : α)])
+  | _ => none
+
+/-! ### `numerical.Vec` (vectors of any length; `VecN.*`, tied to the regenerated kernels by `KernelsTiePoly`) -/
+
+def outOptList (cd : Codec α) : Option (List α) → String
+  | none => "panic"
+  | some xs => outList cd xs
+
+def handleVec (cd : Codec α) (sqrt : α → α) (ws : List String) : Option String := do
+  match ws with
+  | "at" :: k :: rest =>
+    let k ← k.toNat?
+    let (v, _) ← takeCounted cd rest
+    some (s!"{v.length} " ++ outNums cd [v.getD k ((0 : Nat) : α)])
+  | op :: rest =>
+    let (v, r) ← takeCounted cd rest
+    match op with
+    | "normsq" => some (outNums cd [VecN.normSquared v])
+    | "norm" => some (outNums cd [VecN.norm sqrt v])
+    | "normalize" => some (outList cd (VecN.normalize sqrt v))
+    | "zeros" => some (outList cd (VecN.zeros v))
+    | "scale" => do
+      let s ← cd.parse (← r.head?)
+      some (outList cd (VecN.scale v s))
+    | _ =>
+      let (w, _) ← takeCounted cd r
+      match op with
+      | "distsq" => some (outNums cd [VecN.distSquared v w])
+      | "dist" => some (outNums cd [VecN.dist sqrt v w])
+      | "add" => some (outOptList cd (VecN.add v w))
+      | "sub" => some (outOptList cd (VecN.sub v w))
+      | "dot" =>
+        match VecN.dot v w with
+        | none => some "panic"
+        | some d => some (outNums cd [d])
+      | "projout" => some (outOptList cd (VecN.projectOut sqrt v w))
+      | _ => none
   | _ => none
 
 def handleG (cd : Codec α) (sqrt : α → α) (trunc : α → Int) (exact : Bool) (ws : List String) : Option String :=
@@ -378,7 +417,8 @@ def handleG (cd : Codec α) (sqrt : α → α) (trunc : α → Int) (exact : Boo
   | "joined" :: rest => handleJoined cd trunc rest
   | "bisect" :: rest => handleBisect cd rest
   | "angle" :: rest => handleAngle cd trunc rest
-  | "poly" :: rest => handlePolyG cd rest
+  | "poly" :: rest => handlePolyG cd exact rest
+  | "vec" :: rest => handleVec cd sqrt rest
   | _ => none
 
 end Generic
